@@ -261,9 +261,17 @@ func (P *Parser) TokString(tok *token.Token) string {
 func (this *Parser) Parse(scanner Scanner) (res interface{}, err error) {
 	this.Reset()
 	this.nextToken, this.pos = scanner.Scan()
+	// A syntax error in the grammar file is never repaired silently: the first one
+	// is remembered and returned even if error recovery lets the parse run on to
+	// acceptance (running on still allows the more specific diagnostics of the
+	// semantic checks, which are returned as soon as they occur).
+	var firstSyntaxError error
 	for acc := false; !acc; {
 		action, ok := this.actTab[this.stack.Top()].Actions[this.nextToken.Type]
 		if !ok {
+			if firstSyntaxError == nil {
+				firstSyntaxError = this.newError(nil)
+			}
 			if recovered, errAttrib := this.Error(nil, scanner); !recovered {
 				this.nextToken, this.pos = errAttrib.ErrorToken, errAttrib.ErrorPos
 				return nil, this.newError(nil)
@@ -291,6 +299,9 @@ func (this *Parser) Parse(scanner Scanner) (res interface{}, err error) {
 		default:
 			panic("unknown action: " + action.String())
 		}
+	}
+	if firstSyntaxError != nil {
+		return nil, firstSyntaxError
 	}
 	return res, nil
 }
